@@ -132,6 +132,37 @@ def run(ctx):
             ctx.violation("oracle", {"call": "Experiment.randomize/sim_npc/westfall_young", "seed": seed, "touched_global_state": [outs[0][3], outs[1][3]],
                                      "issue": "seeded Experiment randomisation / sim_npc / westfall_young not reproducible or not isolated from numpy.random",
                                      "first": str(outs[0])[:400], "second": str(outs[1])[:400]}, site="Experiment")
+    # ---- the same Experiment object: a seeded call must not depend on what the object was used for before
+    for _ in range(ctx.n(60, 800)):
+        n = ctx.rng.randint(3, 7); seed = ctx.rng.randint(0, 2**31)
+        grp = [ctx.rng.choice([0, 1]) for _ in range(n)]; grp[0], grp[1] = 0, 1
+        resp = [[float(ctx.rng.randint(0, 9))] for _ in range(n)]
+        tests = npc.Experiment.make_test_array(npc.Experiment.TestFunc.mean_diff, [0])
+        fresh = npc.Experiment(grp, resp); used = npc.Experiment(grp, resp)
+        # history on `used`: seeded with the same and with other seeds, in place, then group restored
+        for hs in ([seed], [seed, seed + 1], [seed + 5, seed], [seed, seed]):
+            pass
+        hist = ctx.rng.choice([[seed], [seed, seed + 1], [seed + 5, seed], [seed, seed, seed]])
+        for hseed in hist:
+            guarded(used.randomize, True, hseed)
+            if ctx.rng.random() < 0.5:
+                guarded(used.randomize, True, None)
+        used.group = np.array(grp, dtype=object)
+        which = ctx.rng.choice(["randomize", "sim_npc", "westfall_young"])
+        if which == "randomize":
+            a = guarded(fresh.randomize, True, seed); b = guarded(used.randomize, True, seed)
+            ra, rb = fresh.group.tolist(), used.group.tolist()
+        elif which == "sim_npc":
+            a = guarded(npc.sim_npc, fresh, tests * 2, "fisher", True, 5, seed); b = guarded(npc.sim_npc, used, tests * 2, "fisher", True, 5, seed)
+            ra, rb = (str(a[1:]), fresh.group.tolist()), (str(b[1:]), used.group.tolist())
+        else:
+            a = guarded(npc.westfall_young, fresh, tests * 2, "minP", "greater", True, 5, seed); b = guarded(npc.westfall_young, used, tests * 2, "minP", "greater", True, 5, seed)
+            ra, rb = (str(a[1:]), fresh.group.tolist()), (str(b[1:]), used.group.tolist())
+        ctx.case(("same-object", which, seed, tuple(hist)), True); ctx.count("same-object-reseed-" + which)
+        if a[0] != "ok" or b[0] != "ok" or ra != rb:
+            ctx.violation("oracle", {"call": "Experiment." + which, "seed": seed, "history_of_seeds_on_the_same_object": hist, "group": grp,
+                                     "issue": "a seeded in-place call gives a different result on an Experiment that was randomised before than on a fresh one with identical data",
+                                     "fresh": str(ra)[:300], "used": str(rb)[:300]}, site="Experiment")
     # ---- the model reproduces every run from the seeded generator's log alone
     ops, meta = rt.run_recorded(ctx, names, ctx.n(25, 400))
     outs_m = run_model(ops)
